@@ -2,8 +2,8 @@
 pipeline model (Model/C01FElab.v: elab_export_model2) to the implementation.
 
 Called from the END of harness/vp/c19.py:run() with the streams of C19.  For every call of Series / MosStack / Wrapper of
-those streams whose unit is a leaf (a primitive or an external module: signal-valued ports only, nothing inside), plus a few
-stacks over bus-valued series ports, the implementation is run again (harness/impl/c19.py, the same driver) and Coq
+those streams whose unit is a leaf (a primitive or an external module: signal-valued ports only, nothing inside) - stacks over
+one-bit and over bus-valued series pairs alike (fixes/C19W-1) - the implementation is run again (harness/impl/c19.py, the same driver) and Coq
 (Corr/C19E.v:chk_c19e) computes the package the pipeline model exports for the design and compares it with the
 implementation's package: external declarations, module name, signals, ports, directions, the flattened instances
 units_0..units_{n-1} with their invented names, references, parameters and every connection target - up to the order of
@@ -19,10 +19,7 @@ from .core import cz, cstr, clist
 IMPORTS = ("Require Import Hdl21.Base.PyInt Hdl21.Base.Design Hdl21.Base.Package Hdl21.Model.C01EElab "
            "Hdl21.Corr.C03 Hdl21.Corr.C19E.\nOpen Scope string_scope.")
 
-WIDE_UNITS = [
-    dict(kind="ext", name="E2w", ports=[["a", 2], ["b", 2], ["c", 1]], tag=1),
-    dict(kind="ext", name="E3w", ports=[["x", 3], ["k", 1], ["y", 3], ["z", 3]], tag=1),
-]
+WIDE_TARGET = 10        # bus-valued series pairs with n >= 2 the tie must have compared (fail closed)
 
 
 def _limits():
@@ -66,8 +63,6 @@ def leaf_case(c19, job, prims):
     else:
         conns = job.get("conns") or [None, None]
         a, b, n = c19.conn_name(conns[0]), c19.conn_name(conns[1]), job.get("nser")
-        if conns[0] is not None and conns[0][0] == "fresh" and conns[0][2] != 1:
-            return None
     if not isinstance(n, int) or n < 1:
         return None
     if n == 1:
@@ -145,16 +140,6 @@ def run_tie(run, tier, seed, streams, prims):
                 from_shape[len(jobs)] = pos
             jobs.append(j)
             lcs.append(lc)
-    # bus-valued series ports (the C19 streams have none of equal width): every ordered pair of equally wide ports
-    for u in WIDE_UNITS:
-        wide = [(n, w) for n, w in u["ports"] if w > 1]
-        for n in ([2, 3, 4] if quick else [2, 3, 4, 7, 12]):
-            for a, wa in wide:
-                for b, wb in wide:
-                    if a != b and wa == wb:
-                        j = dict(gen="series", unit=u, conns=[["name", a], ["name", b]], nser=n)
-                        jobs.append(j)
-                        lcs.append((0, [tuple(p) for p in u["ports"]], a, b, n))
     plain = [k for k in range(len(jobs)) if k not in from_shape]
     plain_outs = core.run_worker_sharded("c19", [jobs[k] for k in plain])
     outs = [None] * len(jobs)
@@ -164,11 +149,10 @@ def run_tie(run, tier, seed, streams, prims):
         outs[k] = shape_outs[pos]            # run once, with their history, each in a process of its own
     cases, idx, early = [], [], []
     for k, (j, o, lc) in enumerate(zip(jobs, outs, lcs)):
-        wide = lc[4] >= 2 and dict(lc[1])[lc[2]] > 1
         c = c_case(j, o, lc)
         dev = dev_of(j, o)
         other_unit = dev is not None and dev[3] is not None and [(q[0], q[1]) for q in dev[3]["ports"]] != [tuple(q) for q in lc[1]]
-        if c is None or other_unit or (o["pkg"] is None and not wide):
+        if c is None or other_unit or o["pkg"] is None:
             early.append(k)                   # a call the design model accepts, rejected by the implementation
             continue
         cases.append(c)
@@ -182,21 +166,24 @@ def run_tie(run, tier, seed, streams, prims):
     by_n = {}
     for lc in lcs:
         by_n[nclass(lc[4])] = by_n.get(nclass(lc[4]), 0) + 1
-    wide_n = sum(1 for lc in lcs if lc[4] >= 2 and dict(lc[1])[lc[2]] > 1)
+    is_wide = lambda lc: lc[4] >= 2 and dict(lc[1])[lc[2]] > 1
+    wide_n = sum(1 for lc in lcs if is_wide(lc))
+    wide_equal = sum(1 for k, lc in enumerate(lcs) if is_wide(lc) and code.get(k, 0) == 0)
     ports3 = sum(1 for lc in lcs if len(lc[1]) >= 3)
     bus_par = sum(1 for lc in lcs if lc[4] >= 2 and any(w > 1 for p, w in lc[1] if p not in (lc[2], lc[3])))
     run.stream("pipeline-tie", n, len({json.dumps(j, sort_keys=True) for j, lc in zip(jobs, lcs) if lc[4] >= 2 or lc[0] == 2}),
                equal_packages=sum(1 for k in range(n) if code.get(k, 0) == 0), differ=sum(1 for k in range(n) if code.get(k, 0) == 2),
                rejected_by_impl=sum(1 for o in outs if o["pkg"] is None), by_n=by_n, bus_valued_series_ports=wide_n,
+               bus_valued_series_ports_equal_packages=wide_equal,
                units_with_3_or_more_ports=ports3, stacks_with_bus_valued_parallel_port=bus_par,
                units=len({json.dumps(j.get("unit"), sort_keys=True) for j in jobs}),
                rule="every case is a call of Series / MosStack / Wrapper of the C19 streams on a primitive or an external module "
-                    "(one per unit, ordered pair and n), plus stacks over bus-valued series ports; non-trivial = nser >= 2 or "
+                    "(one per unit, ordered pair - one-bit or bus-valued - and n); non-trivial = nser >= 2 or "
                     "Wrapper; compared inside Coq: package of elab_export_model2 (series_design ..) = the implementation's package")
     missing = [c for c in ("n=1", "n=2", "n=3", "n>=4") if by_n.get(c, 0) == 0]
-    if missing or wide_n == 0 or ports3 == 0:
+    if missing or wide_n < WIDE_TARGET or ports3 == 0:
         run.violation("C19E:coverage", f"the pipeline tie did not reach its coverage targets: missing {missing}, "
-                      f"bus-valued series ports {wide_n}, units with >= 3 ports {ports3}", dict(kind="harness-coverage"), found_input=False)
+                      f"bus-valued series ports {wide_n} (target >= {WIDE_TARGET}), units with >= 3 ports {ports3}", dict(kind="harness-coverage"), found_input=False)
     order = sorted((k for k in range(n) if code.get(k, 0) != 0), key=lambda k: c19.job_size(jobs[k]))
     shown = set()
     for k in order:
